@@ -138,6 +138,7 @@ class Generated:
         self.rewrites = []   # (fn, rule, snippet)
         self.functions = []  # dicts: name, file, line_start, line_end
         self.clauses = 0
+        self.auto_consts = {}  # name -> (text, file, line): constants referred to by extracted functions (rule RV)
 
     def emit(self, text, **origin):
         for l in text.split('\n'):
@@ -148,7 +149,28 @@ class Generated:
         return '\n'.join(self.lines) + '\n'
 
 
+def _join_chains(text, log):
+    """R20: a method chain / argument list that rustfmt wrapped over several lines is joined (`x\n    .f()` -> `x.f()`,
+    `f(\n    a,\n    b,\n)` stays): whitespace only, outside comments and strings; lets the textual rules see one form"""
+    msk = mask(text)
+    out, last, n = [], 0, 0
+    for m in re.finditer(r'\n[ \t]*(?=\.[A-Za-z_])', msk):
+        # do not join when the previous line ends in a comment
+        ls = text.rfind('\n', 0, m.start()) + 1
+        if '//' in text[ls:m.start()] and '//' not in msk[ls:m.start()]:
+            continue
+        out.append(text[last:m.start()])
+        last = m.end()
+        n += 1
+    out.append(text[last:])
+    if n:
+        log.append(('R20', '%d wrapped method-chain line(s) joined (whitespace only)' % n))
+    return ''.join(out)
+
+
 def _apply_rules(text, opts, log, what):
+    if opts['subs']:
+        text = _join_chains(text, log)
     for r in opts['rules']:
         if r == 'R7':
             text = R.r7_derives(text, log, opts['keep'])
@@ -157,7 +179,14 @@ def _apply_rules(text, opts, log, what):
         else:
             raise GenError('unknown rule %s for %s' % (r, what))
     for rid, pat, rep in opts['subs']:
-        new, n = re.subn(pat, rep.replace('\\n', '\n'), text)
+        # whitespace-insensitive matching: a blank in the pattern stands for any white space, and an argument list / assignment may
+        # have been wrapped after `(` or `=` (patterns are written without character classes that contain blanks)
+        flex = re.sub(r'(?<!\\) ', r'\\s+', pat)
+        flex = flex.replace('\\(', '\\(\\s*')
+        try:
+            new, n = re.subn(flex, rep.replace('\\n', '\n'), text)
+        except re.error:
+            new, n = re.subn(pat, rep.replace('\\n', '\n'), text)
         # a chain that does not occur needs no translation: if the code was edited so that the pattern no longer matches, the
         # untranslated text either still means the same to the verifier or is rejected by it (UNDECIDED) -- never a wrong verdict
         log.append((rid, '%d x /%s/ => %s' % (n, pat, rep)))
@@ -212,6 +241,17 @@ def gen_fn(g, repo, sec, mode):
     # line-preserving rewrites first (R1, R2), then the rest
     text = textwrap.dedent(text)
     text = _apply_rules(text, o, log, what)
+    # RV: private constants of the same file that the function refers to are extracted with it (emitted at module level at the end)
+    for cname in sorted(set(re.findall(r'(?<![A-Za-z0-9_:.])([A-Z][A-Z0-9_]{2,})(?![A-Za-z0-9_(!])', mask(text)))):
+        if cname in g.auto_consts:
+            continue
+        try:
+            cs, ce = src.find_block_item('const', cname)
+        except ScanError:
+            continue
+        ctext = textwrap.dedent(src.text[cs:ce]).strip()
+        ctext = re.sub(r'^(\s*(?:///[^\n]*\n\s*|#\[[^\n]*\n\s*)*)(pub(\([a-z]+\))?\s+)?const\b', r'\1pub const', ctext, count=1)
+        g.auto_consts[cname] = (ctext, relfile, src.line_of(cs))
     # split header/body
     msk = mask(text)
     par = msk.find('(', msk.find('fn '))
@@ -402,6 +442,13 @@ def generate(sidecar, repo, mode):
             break
         else:
             raise GenError('%s:%d unknown section kind %r' % (sidecar, s.lineno, s.kind))
+    # RV: constants the extracted functions refer to and that no section defines
+    defined = set(re.findall(r'(?m)^\s*(?:pub(?:\([a-z]+\))?\s+)?(?:spec\s+|exec\s+)?const\s+([A-Z][A-Z0-9_]*)', '\n'.join(g.lines)))
+    for cname, (ctext, cfile, cline) in sorted(g.auto_consts.items()):
+        if cname in defined:
+            continue
+        g.emit(ctext, kind='item', fn=cname, file=cfile, line=cline)
+        g.rewrites.append(dict(fn='%s::%s' % (cfile, cname), rule='RV', what='constant referred to by an extracted function: extracted, made pub'))
     if mode == 'verus':
         g.emit('proof fn vfw_sentinel_must_fail() { assert(false); }', kind='sentinel')
         g.emit('} // verus!', kind='gen')
